@@ -87,9 +87,11 @@ impl Head {
         if !url_string.starts_with('/') {
             return Err(HeadError::MalformedPath);
         }
-        let url = Url::options()
-            .base_url(Some(&Url::parse("http://unknown/").unwrap()))
-            .parse(url_string)
+        // The request target is in origin-form: absolute-path [ "?" query ].
+        // Parse it as the path of an absolute URL, not as a relative reference.
+        // A relative reference starting with "//" would be a network-path reference,
+        // so "//a/b" would have host "a" and path "/b".
+        let url = Url::parse(&format!("http://unknown{url_string}"))
             .map_err(|_| HeadError::MalformedPath)?;
         if proto_bytes != b"HTTP/1.1" {
             return Err(HeadError::UnsupportedProtocol);
